@@ -89,7 +89,7 @@ namespace vd
     }
 
     // ================= hooks: counters, stack monitor (C05), slice trace (C12) =================
-    struct shadow_frame { size_t base; std::vector<const void*> below; };
+    struct shadow_frame { size_t base; std::vector<const void*> below; const void* code = nullptr; };   // code: first instruction of the frame's instruction set
     struct ctx_shadow { std::vector<shadow_frame> frames; };
     static bool g_monitor = false, g_trace = false;
     static std::map<const void*, ctx_shadow> g_shadow;   // per context
@@ -144,8 +144,14 @@ namespace vd
         g_mon_states++;
         // collect live frame bases bottom-up
         std::vector<size_t> bases;
-        for (auto it = c.frames_rbegin(); it != c.frames_rend(); ++it) bases.push_back(it->value_stack_pos());
+        std::vector<const void*> codes;
+        for (auto it = c.frames_rbegin(); it != c.frames_rend(); ++it)
+        {
+            bases.push_back(it->value_stack_pos());
+            codes.push_back(it->m_instruction_set.empty() ? nullptr : (const void*)it->m_instruction_set.begin()->get());
+        }
         std::reverse(bases.begin(), bases.end());
+        std::reverse(codes.begin(), codes.end());
         size_t n = bases.size();
         if (n > g_max_depth) g_max_depth = n;
         if (c.values_size() > g_max_height) g_max_height = c.values_size();
@@ -182,7 +188,18 @@ namespace vd
                 // frames removed by early exit / unwinding (possibly with new frames pushed on top in the same instruction)
                 size_t limit = low.base + 1;
                 size_t new_floor = n > same ? bases[same] : c.values_size();
-                if (!prefix_same(c, low.below))
+                // The frame that survives on top may have been given other code in the same step (a handler block taking
+                // over: try-catch, except__). Its own pending operands are then dropped by design; everything below ITS base
+                // still has to be untouched.
+                bool handler_took_over = same > 0 && same <= n && codes[same - 1] != sh.frames[same - 1].code;
+                if (handler_took_over)
+                {
+                    std::vector<const void*> keep(low.below.begin(), low.below.begin() + std::min(low.below.size(), sh.frames[same - 1].base));
+                    if (!prefix_same(c, keep))
+                        violation("I2-enclosing-operands-changed", rt, "after unwinding to a handler");
+                    sh.frames[same - 1].code = codes[same - 1];
+                }
+                else if (!prefix_same(c, low.below))
                     violation("I2-enclosing-operands-changed", rt, "after frame removal");
                 else if (new_floor > limit)
                     violation("I3-removed-frames-left-operands", rt, "height " + std::to_string(new_floor) + " > base " + std::to_string(low.base) + " + 1");
@@ -203,9 +220,11 @@ namespace vd
         // new frames
         for (size_t i = sh.frames.size(); i < n; i++)
         {
-            shadow_frame f; f.base = bases[i]; f.below = snap(c, std::min(bases[i], c.values_size()));
+            shadow_frame f; f.base = bases[i]; f.below = snap(c, std::min(bases[i], c.values_size())); f.code = codes[i];
             sh.frames.push_back(std::move(f));
         }
+        // the code a live frame runs as of this boundary (loops and switch exchange it in normal operation)
+        for (size_t i = 0; i < sh.frames.size() && i < n; i++) sh.frames[i].code = codes[i];
     }
 
     static void on_event(verif::event k, runtime& rt)
